@@ -50,6 +50,9 @@ ASSUMPTIONS = [
     "truthiness, Float from numeric string / bool) while rejecting them inline - KNOWN FINDING A8, pinned by tests/test_utilities/"
     "test_coerce_value.py; modelled faithfully (int_accepts_iff / float_accepts_iff), reported as cross-kind-scalar-accepted:* / "
     "inline-vs-variable-differs:*; Python `bool` is an `int`",
+    "a variable inside a structured literal at the stand-in scalar stands for its value and for None when absent (fix C06-H7, extracted as "
+    "standInLiteralSeesVariables); that is not known finding A9 (no declared field whose default could apply) and, since the variable's number stays "
+    "a number while an inline number is kept as text, it falls under A10; "
     "value_from_ast hands a custom scalar that has its OWN parse_literal every kind of literal (guard re-extracted: scalarLiteralGuard_spec); the "
     "stand-in scalar of build_schema (default_scalar) converts literals with _untyped_literal (numbers keep their SOURCE TEXT): inline `1` gives '1', "
     "a variable 1 gives 1 - inline != variable for it whenever a number occurs. This was and is recorded as the hypothesis CustomAgree of "
@@ -388,6 +391,30 @@ def default_scalar_parse_guard():
     return verdicts.pop(), kw["parse"].id
 
 
+def stand_in_literal_sees_variables():
+    """Shape of `default_scalar`'s `parse_literal=`: `lambda node, _: _untyped_literal(node)` (the conversion does not see the variables:
+    False) or `_untyped_literal` itself / a lambda passing both arguments on, with a `Variable` branch in `_untyped_literal` (True)."""
+    tree = ast.parse(SCALARS_PY.read_text())
+    fn = next((n for n in tree.body if isinstance(n, ast.FunctionDef) and n.name == "default_scalar"), None)
+    ul = next((n for n in tree.body if isinstance(n, ast.FunctionDef) and n.name == "_untyped_literal"), None)
+    if fn is None or ul is None:
+        raise Untranslatable("default_scalar / _untyped_literal not found")
+    call = next((x for x in ast.walk(fn) if isinstance(x, ast.Call) and getattr(x.func, "id", None) == "ScalarType"), None)
+    kw = {k.arg: k.value for k in (call.keywords if call else [])}
+    pl = kw.get("parse_literal")
+    has_var_branch = any(isinstance(x, ast.Attribute) and x.attr == "Variable" for x in ast.walk(ul)) and len(ul.args.args) >= 2
+    if isinstance(pl, ast.Name) and pl.id == "_untyped_literal":
+        passes = len(ul.args.args) >= 2
+    elif isinstance(pl, ast.Lambda) and isinstance(pl.body, ast.Call) and getattr(pl.body.func, "id", None) == "_untyped_literal":
+        passes = len(pl.body.args) >= 2
+    else:
+        raise Untranslatable("default_scalar: parse_literal= is neither _untyped_literal nor a lambda around it")
+    if passes != has_var_branch:
+        raise Untranslatable("default_scalar: parse_literal passes the variables on (%s) but _untyped_literal %s a Variable branch" %
+                             (passes, "has" if has_var_branch else "lacks"))
+    return passes
+
+
 def extract(ctx):
     consts, accepted, pysrc = int_range_test()
     ds_rejects, ds_fn = default_scalar_parse_guard()
@@ -427,6 +454,9 @@ def extract(ctx):
         "/-- `default_scalar(...)`: `parse=%s`; observed on the live function: NaN / +-Infinity, at the top level and nested in lists / dicts," % ds_fn,
         "    are refused (ValueError), finite values pass. -/",
         "def defaultScalarParseRejectsNonFinite : Bool := %s" % ("true" if ds_rejects else "false"),
+        "",
+        "/-- `default_scalar`'s `parse_literal` hands the variables on to `_untyped_literal`, which has a `Variable` branch (fix C06-H7) -/",
+        "def standInLiteralSeesVariables : Bool := %s" % ("true" if stand_in_literal_sees_variables() else "false"),
         "",
         "/-- literal kinds admitted by each specified scalar's `parse_literal` (`_typed_coerce(f, *node classes)`) -/",
         "def literalKinds : List (String × List String) := [",
@@ -1819,6 +1849,108 @@ def run_stand_in_scalar(ctx):
                          {"check": "stand-in", "type": ty_str(t), "value": json.dumps(j), "inline": list(lit), "variable": list(var)})
 
 
+def run_code_defaults(ctx):
+    """Schemas built with the PYTHON API whose declared defaults do not conform to their own type (hunt3 C07/1): either the schema is
+    refused (`Schema.validate()`, which every entry point calls first) or whatever reaches a resolver conforms. Classes: None at a
+    non-null position (argument / input field / list item), Int out of range, wrong kind, a value that is not one of the enum's."""
+    from py_gql import graphql_blocking
+    from py_gql.exc import SchemaError
+    from py_gql.schema import Argument, EnumType, Field, InputField, InputObjectType, Int, ListType, NonNullType, ObjectType, Schema, String
+    E = EnumType("CE", [("A", 10), ("B", "bee")])
+    cases = [
+        ("null-at-nonnull", NonNullType(Int), None), ("null-item-at-nonnull", ListType(NonNullType(Int)), [1, None]),
+        ("null-item-at-nonnull", NonNullType(ListType(ListType(NonNullType(String)))), [["a", None]]),
+        ("int-out-of-range", Int, 2 ** 40), ("int-out-of-range", ListType(Int), [1, -(2 ** 31) - 1]),
+        ("wrong-kind", Int, "5"), ("wrong-kind", ListType(Int), 5), ("wrong-kind", Int, True),
+        ("enum-non-member", E, "A"), ("enum-non-member", ListType(E), [10, "zzz"]),
+    ]
+    reg = {"types": [t for t in U.fixed_registry()["types"] if t["kind"] not in ("input", "enum")] +
+           [{"name": "CE", "kind": "enum", "values": [["A", 10], ["B", "bee"]]}]}
+    for cls, ty, default in cases:
+        for where in ("argument", "input-field"):
+            seen = []
+
+            def rec(root, c, info, **kw):
+                seen.append(kw)
+                return "ok"
+            if where == "argument":
+                args = [Argument("x", ty, default_value=default)]
+            else:
+                In = InputObjectType("CIn", [InputField("a", ty, default_value=default), InputField("z", Int)])
+                args = [Argument("x", In)]
+            try:
+                schema = Schema(query_type=ObjectType("Query", [Field("f", String, args=args, resolver=rec)]))
+                schema.validate()
+            except SchemaError:
+                ctx.stat("code-default:%s:refused-by-schema-validation" % cls)
+                ctx.count()
+                continue
+            tyj = World_ty_of(ty)
+            docs = ["{ f }"] if where == "argument" else ["{ f(x: {}) }", "{ f(x: {z: 1}) }"]
+            if where == "argument" and not (isinstance(ty, NonNullType)):
+                docs.append("query($v: %s) { f(x: $v) }" % ty_str(tyj))
+            elif where == "argument":
+                docs.append("query($v: %s) { f(x: $v) }" % ty_str(nullable(tyj)))
+            else:
+                docs.append("query($v: CIn = {}) { f(x: $v) }")
+            for doc in docs:
+                seen[:] = []
+                try:
+                    graphql_blocking(schema, doc, variables={})
+                except Exception as e:  # noqa
+                    ctx.stat("code-default:%s:raised:%s" % (cls, type(e).__name__))
+                    continue
+                ctx.count()
+                for kw in seen:
+                    v = kw.get("x", "<absent>")
+                    if where == "input-field":
+                        v = v.get("a", "<absent>") if isinstance(v, dict) else v
+                    r = "<absent>" if v == "<absent>" and False else (None if v == "<absent>" else U.conforms(reg, tyj, v))
+                    ctx.stat("code-default:%s:%s" % (cls, "conforms" if not r else "nonconforming"))
+                    if r:
+                        ctx.fail("nonconforming-argument:unchecked-code-default:%s" % cls,
+                                 "a declared default of a code-built schema that does not conform to its own type reached the resolver (%s)" % r,
+                                 {"check": "code-default", "class": cls, "where": where, "type": ty_str(tyj), "default": repr(default), "document": doc,
+                                  "kwargs": repr(kw)})
+
+
+def World_ty_of(t):
+    from py_gql.schema import ListType, NonNullType
+    if isinstance(t, ListType):
+        return L(World_ty_of(t.type))
+    if isinstance(t, NonNullType):
+        return NN(World_ty_of(t.type))
+    return N(t.name)
+
+
+def run_stand_in_variables(ctx):
+    """A variable INSIDE a structured literal at the stand-in scalar (fix C06-H7): it stands for its coerced value, and for None when it has
+    none (there are no declared fields whose default could apply, so this is not known finding A9's situation). Full entry point, compared
+    with the model; the resolver must be called with exactly the variable's value inside."""
+    reg = U.fixed_registry()
+    spec = [arg("x", N("Any"))]
+    world = World(reg, [spec, [arg("e", N("E"))], [arg("i", N("In1"))]])      # the variable types must be reachable in the schema
+    items, impl, docs = [], [], []
+    for vt, val in ((N("Int"), 3), (N("String"), "s"), (L(N("Int")), [1, 2]), (N("E"), "B"), (N("In1"), {"a": 1})):
+        for lit in (("obj", [("a", ("var", "v")), ("b", ("int", 1))]), ("list", [("var", "v"), ("str", "k")]), ("obj", [("o", ("list", [("var", "v")]))])):
+            for variables in ([("v", val)], []):
+                case = {"field": 0, "vardefs": [("v", vt, None)], "args": [("x", lit)], "variables": variables}
+                out = world.pipeline(case)
+                d = world.direct(case)
+                ctx.count()
+                ctx.stat("stand-in-variable:%s" % out[0])
+                if out[0] == "called" and d != ("ok", out[1]):
+                    ctx.fail("pipeline-vs-direct:stand-in-variable", "kwargs seen by the resolver differ from coerce_argument_values called directly",
+                             {"check": "stand-in", "document": world.doc_text(case), "kwargs": out[1], "direct": list(d)})
+                items.append(case_wire(case, spec)); impl.append(d); docs.append(world.doc_text(case))
+    if ctx.model_ok:
+        for it, ans, d, doc in zip(items, ask_model(ctx, reg, items), impl, docs):
+            mo = model_outcome(ans)
+            if not same_outcome(mo, d):
+                ctx.fail("corr:exec:stand-in-variable:impl-%s-model-%s" % (d[0], mo[0]), "variable inside a literal at the stand-in scalar: model and implementation differ",
+                         {"reg": U.reg_to_jsonable(reg), "request": it, "impl": list(d), "model": list(mo), "document": doc}, kind="correspondence")
+
+
 def run_extremes(ctx):
     """JSON values at the edge: ±inf, NaN, integers far beyond a double, and containers nested hundreds / thousands deep through a
     RECURSIVE input object — sent through `variables` to every kind of position and to `coerce_value` directly. The statement's
@@ -1964,6 +2096,8 @@ def run(ctx):
     run_extremes(ctx)
     run_cross_kind(ctx)
     run_stand_in_scalar(ctx)
+    run_stand_in_variables(ctx)
+    run_code_defaults(ctx)
     run_nested_vars(ctx)
     run_collisions(ctx)
     run_pynum(ctx, ctx.n(2000, 15000))
@@ -2017,6 +2151,10 @@ def replay(ctx, data, record=False):
         return True
     if inp.get("check") == "extreme":
         return replay_extreme(inp)
+    if inp.get("check") == "code-default":
+        c2 = type(ctx)(ctx.prop, ctx.tier, ctx.seed)
+        run_code_defaults(c2)
+        return not any(f["signature"] == data.get("signature") for f in c2.found)
     if inp.get("check") == "stand-in":
         c2 = type(ctx)(ctx.prop, ctx.tier, ctx.seed)
         run_stand_in_scalar(c2)
